@@ -69,7 +69,7 @@ def blob_strategy():
     op = st.one_of(st.tuples(st.just('foreign'), st.integers(0, 5), d, st.sampled_from(['finish', 'abort', 'abort', 'vote-abort', 'vote-abort'])),
                    st.tuples(st.just('write'), st.integers(0, 1), st.sampled_from(['w', 'a']), d), st.tuples(st.just('commit')),
                    st.tuples(st.just('abort')), st.tuples(st.just('observe'), st.booleans())).map(list)
-    return st.fixed_dictionaries({'mode': st.just('blob'), 'kind': st.sampled_from(['bmap', 'bmap', 'fs']),
+    return st.fixed_dictionaries({'mode': st.just('blob'), 'kind': st.sampled_from(['bmap', 'bmap', 'fs', 'bfs']),
                                   'ops': st.lists(op, min_size=2, max_size=8)})
 
 
